@@ -102,3 +102,36 @@ H_ENTRY(h_rvss_group) {
   if (got) { long a = vfh_range(-2, H_P + 3); Z A(a); vf_assert(v->CheckElement(A) == (a > 0 && a < H_P && powmod(a, q, H_P) == 1), "CheckElement accepts exactly the members of the order-q subgroup in 1..p-1"); }
   H_END();
 }
+
+// ---------------------------------------------------------------- quadratic-residue group G = QR_p, p = 2q+1, p = 7 (mod 8)
+#include "BarnettSmartVTMF_dlog_GroupQR.hh"
+#include <new>
+#ifndef H_ESZ
+#define H_ESZ 2
+#endif
+static long jacobi_l(long a, long p) { // Legendre symbol by Euler's criterion (p an odd prime here)
+  long r = powmod(((a % p) + p) % p, (p - 1) / 2, p); return r == 1 ? 1 : (r == 0 ? 0 : -1);
+}
+H_ENTRY(h_groupqr_group) {
+  long q = vfh_range(-1, (1L << H_W)), g = vfh_range(-1, (1L << H_W) + 2);
+  // the object is assembled by hand (the generating constructor needs the prime search): base-class part through its
+  // non-initialising constructor, then the derived class's vtable and E_size
+  BarnettSmartVTMF_dlog_GroupQR *v = (BarnettSmartVTMF_dlog_GroupQR*)::operator new(sizeof(BarnettSmartVTMF_dlog_GroupQR));
+  new ((BarnettSmartVTMF_dlog*)v) BarnettSmartVTMF_dlog(FSZ, FSZ - 1, true, false);
+  *const_cast<unsigned long*>(&v->E_size) = H_ESZ;
+  mpz_set_si(v->p, H_P); mpz_set_si(v->q, q); mpz_set_si(v->g, g); mpz_set_ui(v->k, 2);
+  bool got = false; H_TRY(got = v->BarnettSmartVTMF_dlog_GroupQR::CheckGroup());
+  vf_assert(vfh_exc == 0, "CheckGroup returns (no exception) on arbitrary parameters");
+  bool spec = bits(H_P) >= FSZ && bits(q) >= FSZ - 1 && q > 0 && H_P == 2 * q + 1 && is_prime(H_P) && is_prime(q) && (H_P % 8) == 7
+              && g > 1 && g < H_P - 1 && jacobi_l(g, H_P) == 1;
+  if (spec) { // canonical generator 2^(2^(|p| - E_size)) mod p
+    long e = 1L << (bits(H_P) - H_ESZ); spec = (bits(H_P) >= H_ESZ) && g == powmod(2, e, H_P);
+  }
+  vf_assert(got == spec, "BarnettSmartVTMF_dlog_GroupQR::CheckGroup accepts exactly p = 2q+1 = 7 (mod 8), p and q prime, g the canonical quadratic residue");
+  if (got) {
+    long a = vfh_range(-2, H_P + 3); Z A(a);
+    bool ce = v->BarnettSmartVTMF_dlog_GroupQR::CheckElement(A);
+    vf_assert(ce == (a > 0 && a < H_P && jacobi_l(a, H_P) == 1), "CheckElement accepts exactly the quadratic residues in 1..p-1");
+  }
+  H_END();
+}
